@@ -6,6 +6,19 @@ BASELINE = ("cd /repo && cargo nextest run --workspace --no-fail-fast --tool-con
             "--profile pb --test-threads 8 --offline")
 TECH = "contract-based deductive verification: Verus (Z3) on functions of /repo extracted mechanically on every run"
 CLAIMED = {
+ "C10": dict(
+   text=("Partial claim — the idempotence and `--check` clauses. The file system is a read-only snapshot and every primitive that "
+         "modifies it carries a protocol precondition (`writes_allowed()`, and for byte writes `the bytes differ from the snapshot`). "
+         "Verus discharges on the real text: has_changed_file2buffer / has_changed_file2file return false exactly when the bytes are "
+         "already there; persist_if_changed and copy_if_changed reach a write primitive only when content differs; AppWriter in check "
+         "mode reaches no write primitive and records exactly the outdated paths, verify() is Ok iff update mode or nothing outdated; "
+         "AppDiagnostics::persist_flat, GeneratedApp::persist and the verbatim pavexc_cli::generate route every write through the "
+         "writer chosen from `check` (so `--check` is pure). Native tests replay mtime/content behaviour on a real directory."),
+   note=("NOT decided: the determinism clause (hash seeds, rayon, caches, processes) — a hyper-property of the whole compiler; the "
+         "exact exit-code equivalence beyond AppWriter::verify; directory creation; caches/target dir. Assumed: contracts of the "
+         "toml-massaging helpers of GeneratedApp, of the compiler proper (App::build, codegen) and of fs_err/sha2 stand-ins; no "
+         "transient I/O failure after a successful open; SHA-256 injective."),
+   design="§3/C10"),
  "C18": dict(
    text=("Verus discharges, on the real text of ConfigLoader::load, that the value it returns is extract(merge(merge(merge(empty, "
          "yaml(dir/base.yml)), yaml(dir/<profile>.yml)), env(PX_, split __, ignore [PROFILE]))) with dir and profile as documented, and "
@@ -74,7 +87,6 @@ NA = {
  "C07": "emitted router + third-party matchit (DESIGN §3/C07)",
  "C08": "rule checks walk ComponentDb/ComputationDb built from rustdoc JSON; needs whole-repository invariants (DESIGN §3/C08)",
  "C09": "whole-process totality/termination/panic-freedom over 26 kLoC; Verus rejects the loops' text, Kani proves no termination (DESIGN §3/C09)",
- "C10": "not yet built in this tree: planned tier-2 partial claim (idempotence and --check clauses) — see DESIGN §3/C10",
  "C15": "decoding lives in serde/percent-encoding/serde_html_form; pavex part is macro-generated serde glue generic over every Deserialize (DESIGN §3/C15)",
  "C16": "concurrency + liveness over threads/tokio/sockets; neither verifier supports it on this code (DESIGN §3/C16)",
  "C17": "measured: Verus rejects the recursive Type algebra's text (iterator adapters, let-chains, derived recursive eq), Kani does not converge on one concrete shape pair (DESIGN §3/C17)",
